@@ -1245,32 +1245,61 @@ R_RCONST = 'o5m-ring-constants'
 R_RADD = 'o5m-ring-add'
 R_RGET = 'o5m-ring-get'
 RING_ENTRIES = 15000
+INT_TYPES_RING = ('unsigned int', 'int', 'unsigned long', 'long', 'unsigned short', 'short', 'unsigned long long', 'long long')
 RING_MAXLEN = 250 + 2
 
 
-def _mentions(fn, nid, d):
-    return any(fn.nodes[x].get('k') == 'var' and fn.nodes[x].get('d') == d for x in fn.subtree(nid))
+def _mentions(fn, nid, d, depth=0):
+    """Does expression nid depend on variable d, directly or through locals that only name another expression?"""
+    li = codec.local_inits(fn)
+    for x in fn.subtree(nid):
+        m = fn.nodes[x]
+        if m.get('k') != 'var':
+            continue
+        if m.get('d') == d:
+            return True
+        if depth < 5 and m.get('vk', 'local') == 'local' and m.get('d') in li and _mentions(fn, li[m['d']], d, depth + 1):
+            return True
+    return False
+
+
+def _cmp_consts(fn, nid, d, out, depth=0):
+    li = codec.local_inits(fn)
+    for x in fn.subtree(nid):
+        m = fn.nodes[x]
+        if m.get('k') == 'binop' and m['op'] in ('<', '<=', '>', '>=', '==', '!=') and _mentions(fn, x, d):
+            for side in (m['lhs'], m['rhs']):
+                v = fn.const_value(side)
+                if v is not None:
+                    out.add(v)
+        elif m.get('k') == 'var' and m.get('vk', 'local') == 'local' and m.get('d') in li and depth < 5:
+            _cmp_consts(fn, li[m['d']], d, out, depth + 1)
 
 
 def _guard_consts(fn, nid, d):
-    """integer constants compared with variable d in the guards of node nid."""
+    """integer constants compared with variable d in the guards of node nid (named conditions looked through)."""
     out = set()
     for (c, _s, _b) in edge_guards(fn, nid, loop_exits=True):
-        for x in fn.subtree(c):
-            m = fn.nodes[x]
-            if m.get('k') == 'binop' and m['op'] in ('<', '<=', '>', '>=', '==', '!=') and _mentions(fn, x, d):
-                for side in (m['lhs'], m['rhs']):
-                    v = fn.const_value(side)
-                    if v is not None:
-                        out.add(v)
+        _cmp_consts(fn, c, d, out)
     return out
 
 
 def _reached_for(fn, nid, d, v, extra=None):
-    """Does node nid execute when variable d == v, judging the guards that mention d?  None = a guard cannot be evaluated."""
-    def value_of(f, node):
+    """Does node nid execute when variable d == v, judging the guards that depend on d (also through locals that name a
+    condition, e.g. `const bool in_range = d != 0 && d <= N`)?  Raises Shape when such a guard cannot be evaluated."""
+    from ..c02_util import _int_value
+    li = codec.local_inits(fn)
+
+    def value_of(f, node, depth=0):
         if node.get('k') == 'var' and node.get('d') == d:
             return v
+        if node.get('k') == 'var' and node.get('vk', 'local') == 'local' and node.get('d') in li and depth < 5:
+            init = li[node['d']]
+            n2 = strip_casts(f, init)
+            if n2 is not None and ((n2.get('k') == 'binop' and n2['op'] in ('<', '<=', '>', '>=', '==', '!=', '&&', '||'))
+                                   or (n2.get('k') == 'unop' and n2['op'] == '!')):
+                return eval_cond(f, init, value_of)
+            return _int_value(f, init, value_of)
         if extra is not None:
             return extra(f, node)
         return None
@@ -1453,26 +1482,30 @@ def o5m_ring_rules(fb, R, TABLE=NS + 'ReferenceTable'):
             R.broken('%s: the byte count of the copy is not a parameter' % fn.q)
             continue
         sd = sized[0]
-        # ---- destination slot = current * stride
-        dest = None
+        # ---- destination slot = <counter value> * stride; the counter is the integer member add() updates (a local copy that is
+        #      updated and stored back is followed by the counter evaluation below)
+        stride = None
         for x in fn.subtree(cp['args'][2]):
             m = fn.nodes[x]
             if m.get('k') == 'binop' and m['op'] == '*':
-                sides = [strip_casts(fn, m['lhs']), strip_casts(fn, m['rhs'])]
-                f = []
-                for t in sides:
-                    if t is not None and t.get('k') == 'unop' and t.get('op') in ('++', '--'):
-                        t = fn.sn(t['sub'])     # table[counter++ * stride]: the counter evaluation below decides which value is used
-                    if t is not None and t.get('k') == 'var' and t.get('vk', 'local') == 'local':
-                        t = resolve(fn, t['id'])    # a local copy of the counter; its value is followed by the counter evaluation
-                    if this_field(fn, t) is not None:
-                        f.append(t)
-                c = [t for t in sides if t is not None and fn.const_value(t['id']) is not None]
-                if len(f) == 1 and len(c) == 1:
-                    dest = (this_field(fn, f[0]), fn.const_value(c[0]['id']), f[0]['name'])
-        if dest is None:
-            R.broken('%s: destination of the table copy is not &table[member * constant]' % fn.q)
+                cs = [fn.const_value(sd_) for sd_ in (m['lhs'], m['rhs'])]
+                if (cs[0] is None) != (cs[1] is None):
+                    stride = cs[0] if cs[0] is not None else cs[1]
+        written = {}
+        for n in fn.all_nodes():
+            t = None
+            if n.get('k') == 'assign':
+                t = fn.sn(n['lhs'])
+            elif n.get('k') == 'unop' and n.get('op') in ('++', '--'):
+                t = fn.sn(n['sub'])
+            f = this_field(fn, t) if t is not None else None
+            if f is not None and t.get('t', '').replace('const ', '') in INT_TYPES_RING:
+                written[f] = t['name']
+        if stride is None or len(written) != 1:
+            R.broken('%s: destination of the table copy is not &table[index * constant], or add() does not update exactly one integer member '
+                     '(%s)' % (fn.q, sorted(written.values())))
             continue
+        dest = (next(iter(written)), stride, next(iter(written.values())))
         cur, ES = dest[0], dest[1]
         # ---- boundary: stored exactly for size <= 250 + 2 (every ordering of size against the constants it is compared with)
         reps = {0, 1}
